@@ -145,8 +145,11 @@ func c19(c *Ctx) {
 					d = exprStr(call.Args[0])
 					// judged by value: the schema URL argument folds, under the row's facts, to a's or b's URL (a variable assigned on
 					// several paths is resolved to the assignment that reaches this return)
-					arg0 := g.ResolveUnder(env, seen, call.Args[0], x)
-					if v, known := evalConst(info, arg0, g.withLocals(env)); known && v.Kind() == constant.String {
+					v, known := evalConst(info, call.Args[0], g.withLocals(env))
+					if !known {
+						v, known = evalConst(info, g.ResolveUnder(env, seen, call.Args[0], x), g.withLocals(env))
+					}
+					if known && v.Kind() == constant.String {
 						switch constant.StringVal(v) {
 						case row.a:
 							d = pa.Name() + ".schemaURL"
